@@ -146,6 +146,9 @@ static void copy_even(uint8_t *luma, uint32_t wd, uint32_t ht, uint32_t stride, 
 }
 /* Copy from recon buffer to out buffer! */
 int svt_dec_out_buf(EbDecHandle *dec_handle_ptr, EbBufferHeaderType *p_buffer) {
+    /* no frame decoded yet (no data, or only failed temporal units so far): no output picture */
+    if (dec_handle_ptr->cur_pic_buf[0] == NULL || dec_handle_ptr->cur_pic_buf[0]->ps_pic_buf == NULL)
+        return 0;
     EbPictureBufferDesc *recon_picture_buf = dec_handle_ptr->cur_pic_buf[0]->ps_pic_buf;
     EbSvtIOFormat *      out_img           = (EbSvtIOFormat *)p_buffer->p_buffer;
 
